@@ -28,6 +28,22 @@ class Hang(BaseException):
     """a call into pamqp exceeded its wall-clock or call budget"""
 
 
+class GiveUp(Exception):
+    """too many calls into pamqp hung: stop this lane / oracle instead of waiting for each one"""
+
+
+HANGS = []          # descriptions of the calls that hung in this process
+HANG_CALLS = []     # (function name, args) of those calls, for replay
+MAX_HANGS = 3
+
+
+def note_hang(desc, fn=None, args=()):
+    HANGS.append(desc)
+    HANG_CALLS.append((getattr(fn, '__module__', '?').split('.')[-1] + '.' + getattr(fn, '__name__', '?'), args))
+    if len(HANGS) >= MAX_HANGS:
+        raise GiveUp('%d calls into pamqp did not return within their deadline, e.g. %s' % (len(HANGS), HANGS[0][:300]))
+
+
 class Budget:
     """Counts Python-level calls into pamqp/*.py (sys.setprofile) and raises Hang past `limit`."""
     def __init__(self):
@@ -67,7 +83,7 @@ def deadline(seconds):
         signal.signal(signal.SIGALRM, old)
 
 
-def outcome(fn, *args, show=None, limit=5.0):
+def outcome(fn, *args, show=None, limit=3.0):
     """'ok <shown result>' | 'err <class>' | 'hang'"""
     try:
         if threading.current_thread() is threading.main_thread():
@@ -77,6 +93,7 @@ def outcome(fn, *args, show=None, limit=5.0):
             res = fn(*args)
         return 'ok' + (' ' + show(res) if show else '')
     except Hang:
+        note_hang('%s%r' % (getattr(fn, '__name__', fn), args)[:400], fn, args)
         return 'hang'
     except Unrepresentable:
         raise
